@@ -323,3 +323,140 @@ def coords_mirror(m: Model, name, it=None):
     C.Sorting = Sorting
     C.__name__ = name
     return C, srt
+
+
+def fold_readonly(m: Model):
+    """Immutability after initialisation, decided on the setters themselves.  For every lexical class the `__setattr__` it
+    resolves to (through the MRO; class-level `x = nosetattr(...)` expressions evaluated with tools.NoSetAttr *folded*) is
+    applied to an instance in the state the package is in after lang.init(): `_readonly = True` on exactly the classes the
+    init loop names, the guard object enabled.  Changing an existing attribute must raise AttributeError and leave the
+    value; for the non-Enum classes setting a *new* attribute must still work (items are constructed after init)."""
+    from .bind import bound_class
+    TOOLS = 'pytableaux.tools'
+    results, consulted = [], set()
+    # 1. what init() switches on
+    init = next((st for st in m.trees[LANG].body if isinstance(st, ast.FunctionDef) and st.name == 'init'), None)
+    if init is None:
+        raise AnalysisError('lang.init() vanished')
+    readonly_names, enabled = set(), False
+    for n in ast.walk(init):
+        if isinstance(n, ast.For) and isinstance(n.iter, ast.Tuple):
+            for st in n.body:
+                if isinstance(st, ast.Assign) and isinstance(st.targets[0], ast.Attribute) and st.targets[0].attr == '_readonly' \
+                        and isinstance(st.value, ast.Constant) and st.value.value is True:
+                    readonly_names |= {ast.unparse(e).split('.')[-1] for e in n.iter.elts}
+        if isinstance(n, ast.Assign) and isinstance(n.targets[0], ast.Attribute) and n.targets[0].attr == 'enabled' \
+                and 'nosetattr' in ast.unparse(n.targets[0].value) and isinstance(n.value, ast.Constant) and n.value.value is True:
+            enabled = True
+    consulted.add(m.loc(LANG, init) + ' lang.init')
+    results.append((enabled and bool(readonly_names), 'init switches read-only mode on',
+                    f'lang.init() enables the guard: {enabled}; sets _readonly = True on {sorted(readonly_names)}'))
+    # 2. NoSetAttr folded
+    it = Interp(dict(MapProxy=dict, for_defaults=lambda d, o: {**d, **{k: v for k, v in o.items() if k in d}}, wraps=lambda *a, **k: (lambda f: f),
+                     AttributeError=AttributeError, bool=bool, type=type, getattr=getattr), where='tools/__init__.py NoSetAttr')
+    cd = m.clsdef(ClassRef(TOOLS, 'NoSetAttr'))
+    defaults = None
+    for st in cd.body:
+        if isinstance(st, ast.Assign) and isinstance(st.targets[0], ast.Name) and st.targets[0].id == 'defaults':
+            defaults = it.ev(st.value, {})
+    if defaults is None:
+        raise AnalysisError('NoSetAttr.defaults not readable')
+    NSA = bound_class(m, it, ClassRef(TOOLS, 'NoSetAttr'), consulted=consulted, with_init=True, extra_ns=dict(defaults=defaults),
+                      apply_decorators=('cached',), exclude=('cached',))
+    guard = NSA(attr='_readonly', enabled=False)
+    guard.enabled = True
+    # 3. mirrors of the class hierarchy with the flags init() sets
+    names = ['Lexical', 'LexicalAbc', 'LexicalEnum', 'Operator', 'Quantifier', 'Constant', 'Variable', 'Predicate', 'Atomic', 'Predicated', 'Quantified', 'Operated']
+    mirrors = {}
+
+    def mirror(ref):
+        if ref in mirrors:
+            return mirrors[ref]
+        bases = tuple(mirror(b) for b in m.bases(ref) if b.module.startswith('pytableaux.lang')) or (object,)
+        try:
+            C = type(ref.qualname, bases, {})
+        except TypeError:
+            C = type(ref.qualname, (bases[0],), {})
+        mirrors[ref] = C
+        if ref.qualname in readonly_names:
+            C._readonly = True
+        return C
+    for n in names:
+        mirror(ClassRef(LEX, n))
+    byname = {r.qualname: c for r, c in mirrors.items()}
+    for meta in ('LexicalAbcMeta', 'LangCommonMeta', 'LangCommonEnumMeta'):
+        byname.setdefault(meta, type(meta, (), {'_readonly': True} if meta in readonly_names else {}))
+    g = dict(byname)
+
+    class ReadOnlyError(AttributeError):
+        pass
+    g.update(nosetattr=guard, object=object, abcs=Obj('abcs', Ebc=object, AbcMeta=type, EbcMeta=type), NOARG=object(), getattr=getattr,
+             Emsg=Obj('Emsg', ReadOnly=lambda *a: ReadOnlyError(*a)), errors=Obj('errors', warn=lambda *a, **k: None, RepeatValueWarning=Warning))
+    ite = Interp(g, where='lang/lex.py __setattr__')
+
+    def resolve(ref, after=None):
+        mro = m.mro(ref)
+        start = mro.index(after) + 1 if after is not None else 0
+        for c in mro[start:]:
+            try:
+                ns = m.clsns(c)
+            except Exception:
+                continue
+            if '__setattr__' in ns:
+                raw = ns['__setattr__']
+                if isinstance(raw, tuple) and raw[0] == 'expr':
+                    expr = raw[1] if isinstance(raw[1], ast.AST) else ast.parse(raw[1], mode='eval').body
+                    consulted.add(f'{m.relfile(c.module)} {c.qualname}.__setattr__ = {ast.unparse(expr)}')
+                    if isinstance(expr, ast.Attribute) and expr.attr == '__setattr__' and isinstance(expr.value, ast.Name):
+                        # `__setattr__ = OtherClass.__setattr__`: that class's own setter, resolved from source
+                        other = next((r for r in list(mirrors) + [ClassRef(LANG, expr.value.id), ClassRef(LEX, expr.value.id)] if r.qualname == expr.value.id), None)
+                        if other is not None:
+                            try:
+                                return resolve(other)[0], c
+                            except Exception:
+                                pass
+                    return ite.ev(expr, {}), c
+                v = m.force(raw)
+                if hasattr(v, 'node'):
+                    consulted.add(m.floc(v) + f' {v.qualname}')
+                    fn = v.node
+
+                    def setter(obj, name, value, fn=fn, c=c):
+                        old = ite.g.get('super')
+                        nxt, _ = resolve(ref, after=c)
+                        ite.g['super'] = lambda *a: Obj('super', __setattr__=lambda n_, v_: (nxt or object.__setattr__)(obj, n_, v_))
+                        try:
+                            return ite.call(fn, [obj, name, value])
+                        finally:
+                            ite.g['super'] = old
+                    return setter, c
+        return object.__setattr__, None
+    for n in names[3:]:
+        ref = ClassRef(LEX, n)
+        C = byname[n]
+        try:
+            setter, owner = resolve(ref)
+        except EXC as e:
+            results.append((False, f'{n}: setter', f'resolving __setattr__ raises {type(e).__name__}: {getattr(e, "text", e)}'))
+            continue
+        inst = C()
+        object.__setattr__(inst, 'arity', 1)
+        try:
+            setter(inst, 'arity', 5)
+            outcome = 'accepted'
+        except AttributeError:
+            outcome = 'refused'
+        except EXC as e:
+            outcome = f'raises {type(e).__name__}: {getattr(e, "text", e)}'
+        ok = outcome == 'refused' and inst.arity == 1
+        results.append((ok, f'{n}: changing an attribute after initialisation',
+                        f'`item.arity = 5` on a {n} is {outcome} (value now {inst.arity}); the setter comes from {owner.qualname if owner else "object"} -- expected AttributeError and no change'))
+        if 'LexicalEnum' not in [c.qualname for c in m.mro(ref)]:
+            inst2 = C()
+            try:
+                setter(inst2, 'fresh', 7)
+                outcome2 = 'accepted' if getattr(inst2, 'fresh', None) == 7 else 'lost'
+            except EXC + (AttributeError,) as e:
+                outcome2 = f'raises {type(e).__name__}'
+            results.append((outcome2 == 'accepted', f'{n}: first assignment of an attribute (construction)', f'is {outcome2}; items are constructed after init(), their constructors must still be able to set attributes'))
+    return results, sorted(consulted)
